@@ -813,6 +813,91 @@ example : Modelled ⟨.number, .marked ["m"] (.unk (.num .u (some ⟨.fin false 
 example : @Generated.RefineFns.step textOracle ⟨id, id⟩ sampleList (.lenLower 3) =
     .ok { sampleList with wip := .coll .u 3 maxInt } := by rfl
 
+
+/-! #### the bridge and the one-chain nullness clause, about the translated source -/
+section RegeneratedBridge
+open D05
+
+/-- `ext` touches string arguments only -/
+theorem callOk_ext (P : Num → Bool) (cs : List RefineCall) :
+    (cs.map ext).all (callOk P) = cs.all (callOk P) := by
+  induction cs with
+  | nil => rfl
+  | cons c cs ih =>
+    simp only [List.map, List.all_cons, ih]
+    cases c <;> rfl
+
+omit [Strings] in
+/-- a panic of the model is a panic of the translated source -/
+theorem panic_of_generated {α} {g m : Res α} (h : er g = er m) {w : String} (hm : m = .panic w) :
+    g.isPanic = true := by
+  rw [hm] at h
+  cases g <;> simp [er] at h ⊢
+  rfl
+
+/-- "never widens its range", about the translated source run under THE CODE'S number equality, on integer inputs -/
+theorem narrows_code_integers_generated (b b' : Builder) (cs : List RefineCall) (hb : builderOk intLike b = true)
+    (hc : cs.all (callOk intLike) = true) (h : @Generated.RefineFns.run textOracle _ b cs = .ok b') (x : Conc)
+    (hx : γB b' x = true) : γB b x = true :=
+  narrows_code_integers b b' (cs.map ext) hb (by rw [callOk_ext]; exact hc)
+    (ok_of_generated (@run_eq textOracle _ cs b) h) x hx
+
+/-- end-to-end exactness, about the translated source under THE CODE'S number equality, on integer inputs -/
+theorem refine_exact_code_integers_generated (v w : Value) (cs : List RefineCall) (hm : Modelled v)
+    (hk : v.unmark.isKnown = false) (hd : isDynVal v.unmark = false)
+    (hdr : (cs.map ext).all (fun c => !c.dropped) = true) (hv : valueOk intLike v = true)
+    (hc : cs.all (callOk intLike) = true) (h : @Generated.RefineFns.refine textOracle _ v cs = .ok w) (x : Conc)
+    (hx : x.fits = true) : γV w x = (γV v x && (cs.map ext).all (fun c => den c x)) :=
+  refine_exact_code_integers v w (cs.map ext) hk hd hdr hv (by rw [callOk_ext]; exact hc)
+    (ok_of_generated (@refine_eq textOracle _ v cs hm) h) x hx
+
+/-- contradictions are rejected — the translated source PANICS — under THE CODE'S number equality, on integer inputs -/
+theorem rejects_contradiction_code_integers_generated (b : Builder) (c : RefineCall) (hw : b.wf = true)
+    (hl : b.wip.lenOk = true) (hr : (ext c).isRange = true) (hx : (ext c).exclusiveInfinite = false)
+    (hb : builderOk intLike b = true) (hc : callOk intLike c = true)
+    (h1 : ∃ x, x ≠ .null ∧ γB b x = true) (h2 : ∀ x, x ≠ .null → (γB b x && den (ext c) x) = false)
+    (b' : Builder) : @Generated.RefineFns.step textOracle _ b c ≠ .ok b' := fun h =>
+  rejects_contradiction_code_integers b (ext c) hw hl hr hx hb
+    (by have := callOk_ext intLike [c]; simp only [List.map, List.all_cons, List.all_nil, Bool.and_true] at this
+        rw [this]; exact hc) h1 h2 b'
+    (ok_of_generated (@step_eq textOracle _ b c) h)
+
+/-- `Null()`, accepted calls, `NotNull()` in ONE chain of the translated source: the `NotNull()` panics and the
+chain is never accepted — the translated `NotNull` reads the builder's `wip`, not `orig.Range()` -/
+theorem null_then_notNull_panics_generated [EqOracle] (b : Builder) (hd : b.isDyn = false)
+    (mid rest : List RefineCall) :
+    (∀ b2, Generated.RefineFns.run b (.null :: mid) = .ok b2 →
+      (Generated.RefineFns.step b2 .notNull).isPanic = true) ∧
+    ∀ b', Generated.RefineFns.run b (.null :: (mid ++ .notNull :: rest)) ≠ .ok b' := by
+  obtain ⟨k1, k2⟩ := null_then_notNull_panics b hd (mid.map ext) (rest.map ext)
+  refine ⟨fun b2 h => ?_, fun b' h => ?_⟩
+  · obtain ⟨w, hw⟩ := k1 b2 (ok_of_generated (run_eq (.null :: mid) b) h)
+    exact panic_of_generated (step_eq b2 .notNull) hw
+  · refine k2 b' ?_
+    have := ok_of_generated (run_eq (.null :: (mid ++ .notNull :: rest)) b) h
+    simpa [ext] using this
+
+/-- the mirror image: `NotNull()`, accepted calls, `Null()` -/
+theorem notNull_then_null_panics_generated [EqOracle] (b : Builder) (hd : b.isDyn = false)
+    (mid rest : List RefineCall) :
+    (∀ b2, Generated.RefineFns.run b (.notNull :: mid) = .ok b2 →
+      (Generated.RefineFns.step b2 .null).isPanic = true) ∧
+    ∀ b', Generated.RefineFns.run b (.notNull :: (mid ++ .null :: rest)) ≠ .ok b' := by
+  obtain ⟨k1, k2⟩ := notNull_then_null_panics b hd (mid.map ext) (rest.map ext)
+  refine ⟨fun b2 h => ?_, fun b' h => ?_⟩
+  · obtain ⟨w, hw⟩ := k1 b2 (ok_of_generated (run_eq (.notNull :: mid) b) h)
+    exact panic_of_generated (step_eq b2 .null) hw
+  · refine k2 b' ?_
+    have := ok_of_generated (run_eq (.notNull :: (mid ++ .null :: rest)) b) h
+    simpa [ext] using this
+
+-- the translated source, run under the code's oracle: `Null()` then a length bound is accepted, then `NotNull()` panics
+example : (@Generated.RefineFns.run textOracle ⟨id, id⟩ sampleList [.null, .lenLower 3]).isOk = true ∧
+    (@Generated.RefineFns.run textOracle ⟨id, id⟩ sampleList [.null, .lenLower 3, .notNull]).isPanic = true := by
+  decide
+
+end RegeneratedBridge
+
 end Regenerated
 
 end C05
